@@ -458,7 +458,10 @@ func genGrepCase(rt *rapid.T, plan gPlan) grepCase {
 		c.Tree = &tr
 		ctx.tree = &tr
 	}
-	nrec := gen.Len(rt, "n_records", 1, evid.Pick(12, 40), 1, 2)
+	nrec := rapid.SampledFrom([]int{1, 2, 3, 4, 5, 6, 6, 8, 8, 10, 12, 12}).Draw(rt, "n_records")
+	if evid.Thorough() && rapid.IntRange(0, 3).Draw(rt, "many_records") == 0 {
+		nrec = rapid.IntRange(13, 40).Draw(rt, "n_records_large")
+	}
 	for i := 0; i < nrec; i++ {
 		base := rapid.StringOfN(rapid.SampledFrom([]rune("ab1")), 1, 3, -1).Draw(rt, "id_base")
 		id := base + "_" + strconv.Itoa(i)
